@@ -73,6 +73,8 @@ pub struct Sig {
     pub gen_bound_where: bool,
     /// write `T: 'l` for `&'l T` parameters explicitly (makes 'l early-bound) instead of relying on implied bounds
     pub explicit_outlives: bool,
+    /// a (trivially true) where predicate that mentions lifetime 'a only inside a delimited group: `(&'a u8, u8): Clone`, ..
+    pub grouped_lt_pred: Option<usize>,
     pub has_const: bool,
     pub params: Vec<PTy>,
     pub ret: RTy,
@@ -86,6 +88,8 @@ pub struct Sig {
 }
 
 const LT: [&str; 3] = ["'a", "'b", "'c"];
+/// where predicates over fn lifetime 'a whose lifetime sits inside `(..)` / `[..]` only (they must stay on the method)
+const GROUPED_PREDS: [&str; 4] = ["(&'a u8, u8): Clone", "[&'a u8; 1]: Clone", "fn(&'a u8) -> u8: Copy", "Box<dyn Fn(&'a u8) -> u8>: Sized"];
 
 impl Sig {
     fn deps_has_ref(&self) -> bool {
@@ -142,6 +146,9 @@ impl Sig {
         }
         if self.lt_pred && self.n_lifetimes >= 2 {
             w.push("'b: 'a".into());
+        }
+        if let Some(k) = self.grouped_lt_pred {
+            w.push(GROUPED_PREDS[k % GROUPED_PREDS.len()].to_string());
         }
         let mut dep_bounds: Vec<String> = self.bounds.iter().map(|b| format!("B{b}")).collect();
         if self.deps_maybe_sized && self.deps == Deps::RefGeneric {
@@ -287,6 +294,9 @@ impl Sig {
         if self.lt_pred && self.n_lifetimes >= 2 {
             v.push("'a".to_string());
             v.push("'b".to_string());
+        }
+        if self.grouped_lt_pred.is_some() && !v.contains(&"'a".to_string()) {
+            v.push("'a".to_string());
         }
         for p in self.params.iter().filter(|_| self.explicit_outlives) {
             if let PTy::RefGenNamed(l) = p {
@@ -513,6 +523,7 @@ pub fn gen_sig(t: &mut Tape, excl: &Excl) -> Sig {
         has_gen,
         gen_bound_where: t.flip(),
         explicit_outlives: !excl.lifetime_predicates && t.flip(),
+        grouped_lt_pred: if n_lifetimes >= 1 && !excl.lifetime_predicates && t.chance(1, 5) { Some(t.choose(4)) } else { None },
         has_const,
         params,
         ret,
@@ -623,6 +634,9 @@ pub fn gen_case(t: &mut Tape, excl: &Excl) -> Case {
     }
     if sig.lt_pred {
         classes.push("lifetime_predicate");
+    }
+    if sig.grouped_lt_pred.is_some() {
+        classes.push("lifetime_inside_group_in_where_predicate");
     }
     if sig.deps_maybe_sized {
         classes.push("deps_bound_?Sized");
